@@ -191,7 +191,7 @@ func runC14(p *Prog, r *Report) {
 	pc := q.Fn(R, "internal/core", "dialer", "pipeConnected")
 	if pc.OK() {
 		st := pc.Ev("store", "recv.reconnTime")
-		q.Req(R, "pipeConnected-unconditional", len(st) == 1 && len(st[0].Guard) == 0, st.Pos(p), "unconditional", "pipeConnected resets conditionally")
+		q.Req(R, "pipeConnected-unconditional", len(st) == 1 && st[0].Unconditional(), st.Pos(p), "unconditional", "pipeConnected resets conditionally")
 	}
 
 	R = "C14.5/redial-after-loss"
@@ -208,7 +208,7 @@ func runC14(p *Prog, r *Report) {
 	rd := q.Fn(R, "internal/core", "dialer", "redial")
 	if rd.OK() {
 		c := rd.Ev("call", "core.(*dialer).dial").Arg(1, "true")
-		q.Req(R, "redial-calls-dial-true", len(c) == 1 && len(c[0].Guard) == 0, c.Pos(p), "dial(true)", "redial does not call dial(true)")
+		q.Req(R, "redial-calls-dial-true", len(c) == 1 && c[0].Unconditional(), c.Pos(p), "dial(true)", "redial does not call dial(true)")
 	}
 	dd := q.Fn(R, "internal/core", "dialer", "Dial")
 	if dd.OK() {
@@ -251,7 +251,7 @@ func dialerToldOfEveryClose(p *Prog, r *Report, R string) {
 	cp := q.Fn(R, "internal/core", "pipe", "close")
 	if cp.OK() {
 		c := cp.Ev("call", "core.(*pipe).Close")
-		q.Req(R, "close-calls-Close", len(c) == 1 && len(c[0].Guard) == 0, c.Pos(p), "close() calls Close()", "(*pipe).close no longer calls Close")
+		q.Req(R, "close-calls-Close", len(c) == 1 && c[0].Unconditional(), c.Pos(p), "close() calls Close()", "(*pipe).close no longer calls Close")
 	}
 }
 
